@@ -82,6 +82,21 @@ pub(crate) enum ScheduledTaskCheck {
     LookupEndGame(TransactionID),
 }
 
+// Verification hook: "<kind>:<transaction id in hex>" of a timer token, for the step trace.
+#[cfg(btdht_verif)]
+impl ScheduledTaskCheck {
+    pub(crate) fn verif_desc(&self) -> String {
+        fn hex(tid: &TransactionID) -> String {
+            tid.as_ref().iter().map(|b| format!("{b:02x}")).collect()
+        }
+        match self {
+            Self::TableRefresh => "TableRefresh:".to_owned(),
+            Self::LookupTimeout(tid) => format!("LookupTimeout:{}", hex(tid)),
+            Self::LookupEndGame(tid) => format!("LookupEndGame:{}", hex(tid)),
+        }
+    }
+}
+
 #[derive(Error, Debug)]
 pub(crate) enum WorkerError {
     #[error("invalid transaction id")]
